@@ -195,6 +195,17 @@ CHECKS = {
         "DESIGN.md section 8, C09",
         "diskcache/sqlite/pickle/hmac are trusted to behave as documented; their use is in scope.",
     ),
+    "C19": (
+        "fault_enumeration",
+        "runtime monitoring of the constructor: single-flaw injection at every position of valid generated graphs; exhaustive pair table of a closed type universe against a three-valued reference relation plus metamorphic rules",
+        "Every applicable structural flaw class is injected at every position of generated DAG / gated / explicit-edge graphs "
+        "(and again one level down inside a nested graph); the constructor must raise GraphConfigError and nothing else, the "
+        "unflawed base and plainly ordered / exclusive duplicates must be accepted. is_type_compatible is run on all ordered pairs "
+        "of a closed type universe against the documented rules and on metamorphic identities; strict two-node graphs (flat and "
+        "nested) must accept/reject accordingly.",
+        "DESIGN.md section 8, C19",
+        "Type pairs the documentation leaves open are skipped, not judged.",
+    ),
 }
 
 NOT_YET = {}
